@@ -182,6 +182,7 @@ func famC13(r *Run) {
 	famOneShotStructs(r)
 	famSlicePairs(r)
 	famHistArity(r)
+	famParserKeepsResults(r)
 }
 
 func parseObs(p *jmespath.Parser, expr string) (a AObs) {
